@@ -5,6 +5,7 @@ import Anndb.Drive.Placement
 import Anndb.Drive.Routing
 import Anndb.Drive.Codec
 import Anndb.Drive.Wal
+import Anndb.Drive.Cluster
 /-! `driver <engine>`: the executable Lean models behind a one-line-in, one-line-out protocol. -/
 def main (args : List String) : IO UInt32 := do
   let h ← IO.getStdin
@@ -17,4 +18,5 @@ def main (args : List String) : IO UInt32 := do
   | ["routing"] => Anndb.Drive.Routing.main h out; return 0
   | ["codec"] => Anndb.Drive.Codec.main h out; return 0
   | ["wal"] => Anndb.Drive.Wal.main h out; return 0
+  | ["cluster"] => Anndb.Drive.Cluster.main h out; return 0
   | _ => IO.eprintln "usage: driver <engine>"; return 2
